@@ -87,3 +87,85 @@ Definition c04_quad_exact (L : list (list fl)) (Qs : list (list (list fl)))
 (* ROC-AUC of the implementation against the Mann-Whitney count on exact squared distances *)
 Definition c04_auc (L : list (list Q)) (P : list (list (list Q))) (y : list Z) (auc_impl : Q) : bool :=
   qwithin (auc_mw (@Src_query.pair_distance QOps L P) y) auc_impl tol_1e12.
+
+(* ---------------- C16 ---------------------------------------------------------------------- *)
+From ML Require Import Calibrate.
+
+Definition mindist (data : list (Q * bool)) : Q :=
+  match @distinct_sorted QOps (map fst data) with [] => 0 | d :: _ => d end.
+
+(* thr_impl: None = -infinity *)
+Definition c16_accuracy (data : list (Q * bool)) (thr_impl : option Q) : bool :=
+  match @calib_accuracy QOps data, thr_impl with
+  | RejectAll, Some t => qeqb t (Qred (mindist data - 1))
+  | At d, Some t => qeqb t d
+  | _, None => false
+  end.
+Definition cut_matches (c : @cut QOps) (thr_impl : option Q) : bool :=
+  match c, thr_impl with
+  | RejectAll, None => true
+  | At d, Some t => qeqb t d
+  | _, _ => false
+  end.
+Definition c16_max_tpr (r : Q) (data : list (Q * bool)) (thr_impl : option Q) : bool :=
+  cut_matches (@calib_max_tpr QOps r data) thr_impl.
+Definition c16_max_tnr (r : Q) (data : list (Q * bool)) (thr_impl : option Q) : bool :=
+  cut_matches (@calib_max_tnr QOps r data) thr_impl.
+(* F-beta: the implementation's threshold must attain the model's optimum (ties between
+   mathematically equal F values may be broken differently by rounding) *)
+Definition c16_fbeta (beta : Q) (data : list (Q * bool)) (thr_impl : option Q) : bool :=
+  match thr_impl with
+  | None => false
+  | Some t =>
+      Qle_bool (Qred (@fbeta_of QOps beta (@accepts_c QOps (@calib_fbeta QOps beta data)) data - tol_1e9))
+               (@fbeta_of QOps beta (@accepts QOps t) data)
+  end.
+
+(* ---------------- C07 ---------------------------------------------------------------------- *)
+From ML Require Import Constraints.
+
+Definition subsetp (a b : list (nat * nat)) : bool := forallb (fun p => memp p b) a.
+Definition same_setp (a b : list (nat * nat)) : bool :=
+  subsetp a b && subsetp b a && Nat.eqb (length a) (length b).
+
+Definition c07_pairs (labels : list Z) (n : nat) (same : bool) (iters : list (list nat * list nat))
+    (impl : list (nat * nat)) (impl_warned : bool) : bool :=
+  match pairs_model labels n same 10 iters with
+  | Some (ps, w) => same_setp ps impl && Bool.eqb w impl_warned
+  | None => false
+  end.
+
+(* chunks: impl = chunk id per point (-1 = none), or an exception *)
+Definition chunk_of (assign : list (nat * nat)) (i : nat) : Z :=
+  match find (fun p => Nat.eqb (fst p) i) assign with Some p => Z.of_nat (snd p) | None => (-1)%Z end.
+Definition c07_chunks (labels : list Z) (n_chunks chunk_size : nat) (steps : list chunk_step)
+    (impl : option (list Z)) : bool :=
+  match chunks_model labels n_chunks chunk_size steps, impl with
+  | ChunksError, None => true
+  | ChunksOk a, Some ch =>
+      zveq (map (chunk_of a) (seq 0 (length labels))) ch &&
+      (* the two clauses that are not mechanised: disjoint chunks, exactly n_chunks of them *)
+      nodupb (map fst a) && Nat.eqb (length a) (n_chunks * chunk_size)
+  | _, _ => false
+  end.
+
+Definition eqt (p q : nat * nat * nat) : bool :=
+  match p, q with (a, b, c), (a', b', c') => Nat.eqb a a' && Nat.eqb b b' && Nat.eqb c c' end.
+(* per class: gen_indx, gen_neigh, imp_neigh in the known frame; the tables must have the
+   documented contents (hypotheses of knn_class_sound) *)
+Definition tables_ok (labels : list Z) (cls : list nat * list (list nat) * list (list nat)) : bool :=
+  match cls with (gen_indx, gen_neigh, imp_neigh) =>
+    let kl := known_labels labels in let n := length (known_idx labels) in
+    forallb (fun i => i <? n) gen_indx &&
+    forallb (fun rj => match rj with (a, row) =>
+       forallb (fun j => (j <? n) && negb (Nat.eqb j a) && (nth j kl 0 =? nth a kl 0)%Z) row end)
+       (combine gen_indx gen_neigh) &&
+    forallb (fun rj => match rj with (a, row) =>
+       forallb (fun j => (j <? n) && negb (nth j kl 0 =? nth a kl 0)%Z) row end)
+       (combine gen_indx imp_neigh)
+  end.
+Definition c07_knn (labels : list Z) (cls : list (list nat * list (list nat) * list (list nat)))
+    (impl : list (nat * nat * nat)) : bool :=
+  forallb (tables_ok labels) cls &&
+  all2 eqt (map (knn_to_caller (known_idx labels))
+              (flat_map (fun c => match c with (g, gn, im) => knn_class g gn im end) cls)) impl.
